@@ -436,7 +436,9 @@ def _arraymap_literals():
     a, b = probe("B"), probe("9B")
     if a <= 0 or b != 2 * a or a < 9 - a:
         raise ValueError("unexpected ArrayMap.collect rounding")
-    return {"arraymap_fmtsizes": sizes, "arraymap_fmtsize_x": int(eb.fmtsize("x")),
+    # native alignment of each letter as fmtsize/calcsize pads it inside a multi-member format ("bI" -> 8)
+    aligns = [int(eb.fmtsize("b" + ch)) - int(eb.fmtsize(ch)) for ch in "bBhHiIqQ"]
+    return {"arraymap_fmtsizes": sizes, "arraymap_aligns": aligns, "arraymap_fmtsize_x": int(eb.fmtsize("x")),
             "arraymap_FIXED_BASE": int(eb.Expression.FIXED_BASE), "arraymap_align": a}
 
 
